@@ -9,6 +9,7 @@ for d in sorted(os.listdir('/verif/seeded')):
     if len(what)<40 and len(w)>1: what=(what+' '+w[1])[:150]
     cr=m.get('check_run',{})
     caught='MISSED' if cr.get('exit')!=1 else ('yes' if m.get('caught_initially') else 'after strengthening')
+    if m.get('neutralised') and cr.get('exit')!=1: caught='no longer breaks the property (neutralised by a later fix: commit, see meta.json)'
     if m.get('caught_initially'): first+=1
     cl=[c.split('|',1)[1].replace('|','/') if '|' in c else c for c in cr.get('violation_classes',[])][:2]
     rows.append(f"| {d} | {what.replace('|','/')} | {caught} | {', '.join(c[:110] for c in cl)} |")
